@@ -1,5 +1,5 @@
 SPECIFICATION Spec
-CONSTANTS MaxEdit = 2  MaxInv = 3  GenDepth = 0
+CONSTANTS MaxEdit = 2  MaxInv = 2  GenDepth = 0
 CONSTANT Weak = {"BidIgnoresSrc"}
 VIEW view
 CONSTRAINT CexPrint
